@@ -71,6 +71,13 @@ def compare(root, pp, cfg, api, out, armed, stream='walk'):
                 # the pattern as the second element of a list whose first element is an absolute pattern that matches nothing:
                 # what a pattern denotes does not depend on the patterns that stand before it
                 res = G.glob([root + '/zz_no_such_entry', text], flags=fl, root_dir=root)
+            elif api == 4:
+                # bytes pattern with the root given as a directory descriptor (scandir yields str names there)
+                fd_ = os.open(root, os.O_RDONLY)
+                try:
+                    res = [os.fsdecode(x) for x in G.glob(os.fsencode(text), flags=fl, dir_fd=fd_)]
+                finally:
+                    os.close(fd_)
             else:
                 # ... nor on a pattern before it that lists the same directories in another way (`*`, then the pattern): the
                 # result is judged against the union of the two reference results
@@ -124,7 +131,7 @@ def run_walk(desc):
 
     @seed(desc['seed'])
     @util.hyp_settings(desc['n'], shrink=False)
-    @given(FC.st_case(), FC.st_cfg(CFG_KEYS), st.integers(0, 3))
+    @given(FC.st_case(), FC.st_cfg(CFG_KEYS), st.integers(0, 4))
     def test(sp, cfg, api):
         spec, pp = sp
         follow = FC.follows_links(cfg)
@@ -172,7 +179,7 @@ def run_literal(desc):
                             continue
                         seen.add(key)
                         pp = A.PathPat(False, segs, trail, 1)
-                        r = compare(root, pp, cfg, (0, 3, 2, 0)[len(seen) % 4], out, armed, stream='literal')
+                        r = compare(root, pp, cfg, (0, 3, 2, 0, 4)[len(seen) % 5], out, armed, stream='literal')
                         if r is not None and r[0] and len(segs) >= 2:
                             out.nontrivial((desc['tree'], A.render_path(pp), tuple(sorted(cfg))))
         for i, (sz, b, c) in enumerate(out.violations):
